@@ -1,7 +1,8 @@
 /* zvh_cwksp — workspace budget harness (C14).  #includes zstd_compress.c with the ZSTD_cwksp_reserve_* entry points wrapped by
  * tracing functions (the wrappers are defined AFTER zstd_cwksp.h, so the allocator itself is untouched, nothing in /repo is edited).
  *   ws <static 0|1> <stream 0|1> <misalign 0..56 step 8> <extra> <uses> <nspecs> then per spec: <id=val,...|-> <srcSize> <pledged|-1>   (use k takes spec k mod nspecs;
- *        a static context is sized by the estimate for spec 0: ZSTD_estimateC{Ctx,Stream}Size(L) when the spec is exactly 100=L, else *_usingCCtxParams)
+ *        a static context is sized by the estimate for spec 0: ZSTD_estimateC{Ctx,Stream}Size(L) when the spec is exactly 100=L, else *_usingCCtxParams;
+ *        a spec containing 9998=1 is sized by ZSTD_estimateC{Ctx,Stream}Size_usingCParams on its 101..107 entries alone - the estimate never sees the other entries)
  *        -> one line per use:
  *        use <k> rc=<ok|errclass> rp=<wlog,clog,hlog,mm,strat,useRow,ldm,ldmHashLog,ldmBucketLog,ldmMinMatch,extSeq,maxBlock,static,bufIn,bufOut,pledged>
  *            lo64=<address mod 64> size=<workspace bytes> fresh=<0|1> need=<neededSpace as the code computes it> trace=<o<n> t<n> i<n> a<n> b<n> ...>
@@ -58,6 +59,7 @@ static size_t apply_params(ZSTD_CCtx* c, const char* spec, int* wantExt) {
     for (kv = strtok_r(buf, ",", &sv); kv && !ZSTD_isError(r); kv = strtok_r(NULL, ",", &sv)) { int id, val;
         if (sscanf(kv, "%d=%d", &id, &val) != 2) continue;
         if (id == 9999) { *wantExt = val; continue; }
+        if (id == 9998) continue;   /* sizing directive, see estimate_for */
         r = ZSTD_CCtx_setParameter(c, (ZSTD_cParameter)id, val); }
     return r;
 }
@@ -65,6 +67,12 @@ static size_t apply_params(ZSTD_CCtx* c, const char* spec, int* wantExt) {
 static size_t estimate_for(const char* spec, int stream) {
     ZSTD_CCtx_params* p; char buf[600]; char* sv = NULL; char* kv; size_t r; int ext = 0;
     { int lvl; char tail; if (sscanf(spec, "100=%d%c", &lvl, &tail) == 1) return stream ? ZSTD_estimateCStreamSize(lvl) : ZSTD_estimateCCtxSize(lvl); }
+    if (strstr(spec, "9998=1")) { ZSTD_compressionParameters cp; memset(&cp, 0, sizeof cp);
+        strncpy(buf, spec, sizeof buf - 1); buf[sizeof buf - 1] = 0;
+        for (kv = strtok_r(buf, ",", &sv); kv; kv = strtok_r(NULL, ",", &sv)) { int id, val; if (sscanf(kv, "%d=%d", &id, &val) != 2) continue;
+            switch (id) { case 101: cp.windowLog = (unsigned)val; break; case 102: cp.hashLog = (unsigned)val; break; case 103: cp.chainLog = (unsigned)val; break; case 104: cp.searchLog = (unsigned)val; break;
+                          case 105: cp.minMatch = (unsigned)val; break; case 106: cp.targetLength = (unsigned)val; break; case 107: cp.strategy = (ZSTD_strategy)val; break; default: break; } }
+        return stream ? ZSTD_estimateCStreamSize_usingCParams(cp) : ZSTD_estimateCCtxSize_usingCParams(cp); }
     p = ZSTD_createCCtxParams();
     strncpy(buf, spec, sizeof buf - 1); buf[sizeof buf - 1] = 0;
     if (strcmp(spec, "-")) for (kv = strtok_r(buf, ",", &sv); kv; kv = strtok_r(NULL, ",", &sv)) { int id, val; if (sscanf(kv, "%d=%d", &id, &val) == 2) { if (id == 9999) ext = val; else ZSTD_CCtxParams_setParameter(p, (ZSTD_cParameter)id, val); } }
